@@ -120,6 +120,52 @@ pub fn honest_objects<C: NatCtx>(v: &mut Env<C>, variety: usize) -> Vec<Wire> {
     out
 }
 
+/// `Vec<Vec<u8>>` framing: u32 count, then per item u32 length + bytes. Returns the encoding with
+/// `pad` appended inside the first item.
+pub fn pad_first_inner_item(bytes: &[u8], pad: &[u8]) -> Option<Vec<u8>> {
+    if bytes.len() < 8 || u32::from_le_bytes(bytes[0..4].try_into().ok()?) == 0 {
+        return None;
+    }
+    let len = u32::from_le_bytes(bytes[4..8].try_into().ok()?) as usize;
+    if 8 + len > bytes.len() {
+        return None;
+    }
+    let mut out = bytes[0..4].to_vec();
+    out.extend(((len + pad.len()) as u32).to_le_bytes());
+    out.extend(&bytes[8..8 + len]);
+    out.extend(pad);
+    out.extend(&bytes[8 + len..]);
+    Some(out)
+}
+pub fn pad_last_inner_item(bytes: &[u8], pad: &[u8]) -> Option<Vec<u8>> {
+    if bytes.len() < 8 {
+        return None;
+    }
+    let count = u32::from_le_bytes(bytes[0..4].try_into().ok()?) as usize;
+    if count == 0 {
+        return None;
+    }
+    let mut pos = 4;
+    let mut last = 4;
+    for _ in 0..count {
+        if pos + 4 > bytes.len() {
+            return None;
+        }
+        last = pos;
+        let len = u32::from_le_bytes(bytes[pos..pos + 4].try_into().ok()?) as usize;
+        pos += 4 + len;
+    }
+    if pos != bytes.len() {
+        return None;
+    }
+    let len = u32::from_le_bytes(bytes[last..last + 4].try_into().ok()?) as usize;
+    let mut out = bytes[..last].to_vec();
+    out.extend(((len + pad.len()) as u32).to_le_bytes());
+    out.extend(&bytes[last + 4..]);
+    out.extend(pad);
+    Some(out)
+}
+
 pub fn run_c12<C: NatCtx>(v: &mut Env<C>) {
     let quick = v.h.tier == Tier::Quick;
     let reps = if v.small { if quick { 8 } else { 40 } } else if quick { 2 } else { 8 };
@@ -169,6 +215,20 @@ pub fn run_c12<C: NatCtx>(v: &mut Env<C>) {
                     let bs = &w.bytes[..w.bytes.len() - k];
                     let r = des_op(v, w.des, bs);
                     v.h.check(r == Out::Err, || format!("{} accepts an encoding with {} bytes removed from the end on {}", w.des, k, tok));
+                }
+            }
+            // StrandVector wrappers: extra bytes INSIDE a nested item (inner length prefix bumped
+            // accordingly) must be rejected too: every item is decoded strictly
+            if w.des.starts_with("des_svec_") && w.bytes.len() > 8 {
+                for pad in [vec![0u8], vec![7, 7, 7]] {
+                    if let Some(bs) = pad_first_inner_item(&w.bytes, &pad) {
+                        let r = des_op(v, w.des, &bs);
+                        v.h.check(r == Out::Err, || format!("{} accepts trailing bytes inside a nested item on {}", w.des, tok));
+                    }
+                    if let Some(bs) = pad_last_inner_item(&w.bytes, &pad) {
+                        let r = des_op(v, w.des, &bs);
+                        v.h.check(r == Out::Err, || format!("{} accepts trailing bytes inside its last nested item on {}", w.des, tok));
+                    }
                 }
             }
             // an interior byte removed: only model/implementation agreement is required
